@@ -19,7 +19,8 @@
    Preserving or Observe step as a CASE; PreserveTrace validates what the real code did.        *)
 EXTENDS ERat, FiniteSets, TLC, Json
 
-CONSTANTS Models,      \* subset of {"pheno", "mox2", "linear"}
+CONSTANTS Models,      \* subset of {"pheno", "mox2", "linear", "pred"}; "pred" = a $PRED model with one eta, two parameters
+                       \* without eta and a logical-IF covariate statement after the eta assignments
           MaxHist,
           Acts         \* tokens enabled in this configuration
 
@@ -27,7 +28,7 @@ VARIABLES m, hist, ver, nm
 vars == <<m, hist, ver, nm>>
 
 Structural == {"S:FO", "S:PER", "S:TR", "S:LAG", "S:ZOE", "S:MM"}
-Extension  == {"X:COVLIN", "X:COVCAT", "X:COVPW", "X:IOV", "X:BOXCOX", "X:COMB", "X:IIVRUV", "X:POWER", "X:TV"}
+Extension  == {"X:ADDIIV", "X:COVLIN", "X:COVCAT", "X:COVPW", "X:IOV", "X:BOXCOX", "X:COMB", "X:IIVRUV", "X:POWER", "X:TV"}
 Data       == {"D:FIXTH", "D:ZEROOM"}
 Preserving == {"P:MU", "P:DECL", "P:CLEAN", "P:SIMP", "P:GREEK", "P:RENAME", "P:SOLVE", "P:GENERIC", "P:NONMEM",
                "P:UNLOAD", "P:LOAD", "P:UNUSED", "P:JOINT", "P:SPLIT", "P:FIXED", "P:NONRANDOM"}
@@ -40,6 +41,7 @@ Function ==
         CASE t = "S:FO" -> "set_first_order_absorption" [] t = "S:PER" -> "add_peripheral_compartment"
           [] t = "S:TR" -> "set_transit_compartments(2)" [] t = "S:LAG" -> "add_lag_time"
           [] t = "S:ZOE" -> "set_zero_order_elimination" [] t = "S:MM" -> "set_michaelis_menten_elimination"
+          [] t = "X:ADDIIV" -> "add_iiv(parameter without eta, exp)"
           [] t = "X:COVLIN" -> "add_covariate_effect(lin)" [] t = "X:COVCAT" -> "add_covariate_effect(cat)"
           [] t = "X:COVPW" -> "add_covariate_effect(piece_lin)" [] t = "X:IOV" -> "add_iov"
           [] t = "X:BOXCOX" -> "transform_etas_boxcox" [] t = "X:COMB" -> "set_combined_error_model"
@@ -67,7 +69,7 @@ ASSUME Acts \subseteq AllActs
 
 Start(name) ==
     [model |-> name,
-     ode  |-> name # "linear",        \* the model still has its ODE system
+     ode  |-> name \notin {"linear", "pred"},   \* the model still has its ODE system
      fmt  |-> IF name = "linear" THEN "nonmem" ELSE "nonmem",
      data |-> TRUE,
      names |-> "orig",                \* "orig" | "greek" | "given"
@@ -83,7 +85,7 @@ Init == /\ \E n \in Models : m = Start(n)
 \* linear, at most two compartments (one compartment with or without depot, or central + one peripheral):
 \* the systems whose eigenvalues the driver can make rational through the probe values
 Linear1 == m.ode /\ m.tr = 0 /\ ~m.lag /\ m.elim = "FO" /\ (m.per = 0 \/ (m.per = 1 /\ ~m.abs))
-PK == m.model # "linear"
+PK == m.model \in {"pheno", "mox2"}
 
 \* enabledness = documented preconditions + what the corpus offers; the "never run" pairs and the known
 \* totality defects of setter sequences are C08's, not part of this alphabet
@@ -94,6 +96,8 @@ Enabled(t) ==
       [] t = "S:LAG" -> PK /\ m.ode /\ ~m.lag /\ m.tr = 0 /\ m.names = "orig"
       [] t = "S:ZOE" -> PK /\ m.ode /\ m.elim = "FO" /\ m.tr = 0 /\ m.per = 0 /\ m.names = "orig"
       [] t = "S:MM"  -> PK /\ m.ode /\ m.elim = "FO" /\ m.tr = 0 /\ m.per = 0 /\ m.names = "orig"
+      \* a new eta assignment after the existing ones: what a second mu_reference_model has to splice in correctly
+      [] t = "X:ADDIIV" -> m.model = "pred" /\ t \notin m.ext /\ m.names = "orig"
       [] t \in {"X:COVLIN", "X:COVCAT", "X:COVPW"} -> PK /\ m.data /\ t \notin m.ext /\ m.names = "orig" /\ m.ode
       [] t = "X:IOV"    -> PK /\ m.data /\ t \notin m.ext /\ "X:BOXCOX" \notin m.ext /\ m.names = "orig" /\ ~m.joint /\ m.ode
       [] t = "X:BOXCOX" -> PK /\ t \notin m.ext /\ "X:IOV" \notin m.ext /\ m.names = "orig" /\ m.ode
